@@ -146,7 +146,8 @@ def align(cell):
             if st is None and not any('multiple' in o['msg'] for o in out) and len([r for r in rows if r.flag & 8]) not in (11, 12):
                 out.append({'msg': f'{drv} range {R!r} ft, no step: {len(rows)} rows instead of 11', 'key': None})
     return {'v': out, 'n': n, 'nt': cell if nt else None, 'traces': nt, 'states': len(Rs), 'transitions': n,
-            'obs': [drv, x1 - x0 > c]}
+            'obs': [drv, x1 - x0 > c],
+            'sample': {'driver': drv, 'lattice_cell': [x0, x1], 'range_representatives_ft': Rs, 'steps': ['R', 'R/2', 'R/3', 'none', 0.5, 0.7], 'fires_in_precondition': nt}}
 
 
 def units(cell):
